@@ -212,7 +212,7 @@ theorem onProposerLastBlock_dishonor {s s' : St} {q : Seq} (hl : Lev s) (e : onP
     `min(DishonorStateUpdate, dishonor)` -/
 theorem updateState_honors {s s' : St} {m : UpdMsg} {q : Seq} (hl : Lev s) (hq : getSeq s m.sender = some q)
     (e : updateState s m = .ok s') :
-    (getSeq s' m.sender).map (·.dishonor) = some (q.dishonor - min s.p.dishonorSU q.dishonor) := by
+    (getSeq s' m.sender).map (·.dishonor) = some (q.dishonor - min s.sqp.dishonorSU q.dishonor) := by
   unfold updateState at e
   split at e
   · cases e
@@ -239,22 +239,22 @@ theorem updateState_honors {s s' : St} {m : UpdMsg} {q : Seq} (hl : Lev s) (hq :
                     injection e with e; subst e
                     have l1 : Lev (setRa s { r with states := r.states ++ [newSInfo s m (updSucc r m)] }) :=
                       hl.setRa_same hg rfl rfl
-                    have key : (getSeq s3 m.sender).map (·.dishonor) = some (q.dishonor - min s.p.dishonorSU q.dishonor) := by
+                    have key : (getSeq s3 m.sender).map (·.dishonor) = some (q.dishonor - min s.sqp.dishonorSU q.dishonor) := by
                       unfold seqAfterUpdate at h3
                       have hqX : getSeq (setRa s { r with states := r.states ++ [newSInfo s m (updSucc r m)] }) m.sender = some q := hq
                       rw [hqX] at h3
                       dsimp only at h3
-                      simp only [setRa_p] at h3
+                      simp only [setRa_sqp] at h3
                       have hset : getSeq (setSeq (setRa s { r with states := r.states ++ [newSInfo s m (updSucc r m)] })
-                          { q with dishonor := q.dishonor - min s.p.dishonorSU q.dishonor }) m.sender =
-                          some { q with dishonor := q.dishonor - min s.p.dishonorSU q.dishonor } := by
+                          { q with dishonor := q.dishonor - min s.sqp.dishonorSU q.dishonor }) m.sender =
+                          some { q with dishonor := q.dishonor - min s.sqp.dishonorSU q.dishonor } := by
                         rw [← getSeq_addr hq]
-                        exact getSeq_setSeq_same (q := { q with dishonor := q.dishonor - min s.p.dishonorSU q.dishonor }) (q0 := q)
+                        exact getSeq_setSeq_same (q := { q with dishonor := q.dishonor - min s.sqp.dishonorSU q.dishonor }) (q0 := q)
                           (by show getSeq (setRa s _) q.addr = some q; rw [getSeq_addr hq]; exact hq)
                       split at h3
                       · have fr := onProposerLastBlock_dishonor
                           (show Lev (setSeq (setRa s { r with states := r.states ++ [newSInfo s m (updSucc r m)] })
-                            { q with dishonor := q.dishonor - min s.p.dishonorSU q.dishonor }) from l1.of_eq rfl rfl) h3
+                            { q with dishonor := q.dishonor - min s.sqp.dishonorSU q.dishonor }) from l1.of_eq rfl rfl) h3
                         rw [fr m.sender, hset]; rfl
                       · injection h3 with h3; subst h3
                         rw [hset]; rfl
